@@ -35,12 +35,9 @@ def cases(tier, rng):
     out += large_cases(tier, rng)
     return out
 
-def large_cases(tier, rng):
-    """beyond the small shapes: predicates of 20-40 clauses, queries with 10-60 answers, recursion 10-30 levels deep,
-    lists of 9-16 elements, more requests than there are answers"""
+def large_kb():
+    """the library plus predicates of 12-40 clauses and a chain 30 links deep"""
     from gen.progs import fact, C, AND, OR, U, X, Y, Z, i
-    from lib.sx import flt
-    out = []
     big = list(progs.LIB)
     for k in range(1, 41): big.append(fact("num", i(k)))
     for k in range(1, 31): big.append(fact("next", i(k), i(k + 1)))
@@ -48,6 +45,15 @@ def large_cases(tier, rng):
     big.append(rule(cplx("reach", X, Y), AND(C("next", X, Z), C("reach", Z, Y))))
     big.append(rule(cplx("pair", X, Y), AND(C("num", X), C("num", Y), bip("greater_than", X, i(34)), bip("less_than", Y, i(4)))))
     for k in range(1, 13): big.append(rule(cplx("many", X), AND(C("n", X), bip("less_than", X, i(k % 4 + 1)))))
+    return big
+
+def large_cases(tier, rng):
+    """beyond the small shapes: predicates of 20-40 clauses, queries with 10-60 answers, recursion 10-30 levels deep,
+    lists of 9-16 elements, more requests than there are answers"""
+    from gen.progs import fact, C, AND, OR, U, X, Y, Z, i
+    from lib.sx import flt
+    out = []
+    big = large_kb()
     l9 = lst([i(k) for k in range(1, 10)])
     l16 = lst([i(k % 5) for k in range(16)])
     V = lambda n: var(0, n)
